@@ -2,7 +2,8 @@
    Full statement: ScalImplProof.C08_full_statement.  Proved here: the FINITE instance over every numeric/code/flag entry
    (width 1..32) of the five shipped Table B versions (GenTables.shipped_tables) x the raw-value grid [raw_grid]
    (16 lowest, 16 highest incl. the all-ones pattern, the sign change of i+ref, i+ref around 2^w-1 where the encoder
-   switches branch, and the first multiples of 10^scale), by evaluation of the model with the correctly rounded pow10_rn. *)
+   switches branch, and the first multiples of 10^scale), by evaluation of the model with the correctly rounded pow10_rn,
+   for BOTH variants of the negative-scale arithmetic (fx_neg, see ScalImpl.v). *)
 From Coq Require Import ZArith List Bool Lia Reals Lra.
 From Flocq Require Import Core BinarySingleNaN.
 From V Require Import Fm94 GenTables ScalSpec ScalImpl ScalImplProof.
@@ -12,7 +13,7 @@ Local Open Scope Z_scope.
 (* the encoder looks at the descriptor only to recognise class 31 *)
 Definition cdesc (d : Z) : Z := if desc_x d =? 31 then 31000 else 0.
 
-Lemma cvt_desc_canon pow10 d en f : cvt_dval_to_i64 pow10 d en f = cvt_dval_to_i64 pow10 (cdesc d) en f.
+Lemma cvt_desc_canon pow10 fx d en f : cvt_dval_to_i64 pow10 fx d en f = cvt_dval_to_i64 pow10 fx (cdesc d) en f.
 Proof.
   unfold cvt_dval_to_i64, cdesc.
   destruct (desc_x d =? 31) eqn:E.
@@ -35,9 +36,9 @@ Definition raw_grid (s r w : Z) : list Z :=
     (upto 16 0 ++ upto 16 (2 ^ w - 16) ++ upto 5 (- r - 2) ++ upto 3 (2 ^ w - 2 - r)
      ++ (if 0 <? s then upto 3 (10 ^ s - r - 1) ++ upto 3 (2 * 10 ^ s - r - 1) else [])).
 
-Definition rt_ok (d s r w i : Z) : bool :=
+Definition rt_ok (fx : bool) (d s r w i : Z) : bool :=
   let e := {| e_scale := s; e_ref := r; e_nbits := w |} in
-  cvt_dval_to_i64 pow10_rn d e (cvt_i64_to_dval pow10_rn e i) =? i.
+  cvt_dval_to_i64 pow10_rn fx d e (cvt_i64_to_dval pow10_rn fx e i) =? i.
 
 Definition key : Set := ((Z * Z) * (Z * Z))%type.
 Definition key_of (db : Z * bent) : key := ((cdesc (fst db), b_scale (snd db)), (b_ref (snd db), b_width (snd db))).
@@ -72,23 +73,27 @@ Qed.
 Definition all_keys : list key :=
   dedup [] (map key_of (filter (fun db => in_scope (snd db)) (flat_map tB shipped_tables))).
 
-Definition key_ok (k : key) : bool :=
-  let '((d, s), (r, w)) := k in forallb (rt_ok d s r w) (raw_grid s r w).
+Definition key_ok (fx : bool) (k : key) : bool :=
+  let '((d, s), (r, w)) := k in forallb (rt_ok fx d s r w) (raw_grid s r w).
 
-Lemma all_keys_checked : forallb key_ok all_keys = true.
+Lemma all_keys_checked_div : forallb (key_ok false) all_keys = true.
+Proof. vm_compute. reflexivity. Qed.
+
+Lemma all_keys_checked_mul : forallb (key_ok true) all_keys = true.
 Proof. vm_compute. reflexivity. Qed.
 
 Theorem encode_float_eq_raw_partial :
-  forall T, In T shipped_tables ->
+  forall (fx_neg : bool) T, In T shipped_tables ->
   forall d b, In (d, b) (tB T) -> in_scope b = true ->
   forall i, In i (raw_grid (b_scale b) (b_ref b) (b_width b)) ->
-  cvt_dval_to_i64 pow10_rn d (enc_of b) (cvt_i64_to_dval pow10_rn (enc_of b) i) = i.
+  cvt_dval_to_i64 pow10_rn fx_neg d (enc_of b) (cvt_i64_to_dval pow10_rn fx_neg (enc_of b) i) = i.
 Proof.
-  intros T HT d b Hdb Hsc i Hi.
+  intros fx T HT d b Hdb Hsc i Hi.
   assert (K : In (key_of (d, b)) all_keys).
   { unfold all_keys. apply dedup_In. right. apply in_map. apply filter_In. split; [|exact Hsc].
     apply in_flat_map. exists T. split; assumption. }
-  assert (A := proj1 (forallb_forall _ _) all_keys_checked _ K).
+  assert (A : key_ok fx (key_of (d, b)) = true).
+  { destruct fx; [exact (proj1 (forallb_forall _ _) all_keys_checked_mul _ K) | exact (proj1 (forallb_forall _ _) all_keys_checked_div _ K)]. }
   unfold key_of, key_ok in A. cbn [fst snd] in A.
   assert (B := proj1 (forallb_forall _ _) A _ Hi).
   unfold rt_ok in B. apply Z.eqb_eq in B.
@@ -99,16 +104,17 @@ Qed.
 Definition partial_domain_size : Z :=
   fold_right (fun k acc => let '((d, s), (r, w)) := k in Z.of_nat (length (raw_grid s r w)) + acc) 0 all_keys.
 
-(* ------------------------------------------------------------------ what the faithful mirror refutes (witnesses replayed on the C library
-   by lib/c08.py; see proposed_fixes/C08_negscale_range.md and C08_negref_fmax_wrap.md) *)
+(* ------------------------------------------------------------------ the negative-scale defect and its repair
+   (proposed_fixes/C08_negscale_range.md / C08_remaining.diff; witnesses replayed on the C library by lib/c08.py) *)
 
-(* "the exactly representable physical value of a raw value below all-ones encodes to that raw value" fails for negative scales:
-   0 02 067 (scale -5, reference 0, 15 bits), raw 32766, physical value 3276600000 is stored as missing (all ones). *)
+(* variant fx_neg = false (x / pow(10,scale) with the inexact 10^scale): "the exactly representable physical value of a raw
+   value below all-ones encodes to that raw value" fails: 0 02 067 (scale -5, reference 0, 15 bits), raw 32766, physical value
+   3276600000 is stored as missing (all ones). *)
 Theorem encode_exact_physical_refuted :
   exists en i d,
     (0 <= i <= 2 ^ e_nbits en - 2) /\ is_finite d = true /\
     B2R d = physR (e_scale en) (e_ref en) i /\
-    cvt_dval_to_i64 pow10_rn 2067 en d = 2 ^ e_nbits en - 1.
+    cvt_dval_to_i64 pow10_rn false 2067 en d = 2 ^ e_nbits en - 1.
 Proof.
   exists {| e_scale := -5; e_ref := 0; e_nbits := 15 |}, 32766, (d_of_Z 3276600000).
   destruct (d_of_Z_exact 3276600000) as [E F]; [vm_compute; reflexivity|].
@@ -118,19 +124,13 @@ Proof.
   - vm_compute. reflexivity.
 Qed.
 
-(* "a physical value outside the representable range is stored as missing, never as some other value" fails when the scale is
-   negative and reference < -(2^w-2) (the unsigned computation of fmax wraps and that branch has no post-check):
-   scale -1, reference -1000, 8 bits: -7440 > phys(254) = -7460 is stored as raw 256 = 2^8. *)
-Theorem encode_out_of_range_refuted :
-  exists en d,
-    is_finite d = true /\
-    (physR (e_scale en) (e_ref en) (2 ^ e_nbits en - 2) < B2R d)%R /\
-    cvt_dval_to_i64 pow10_rn 1001 en d = 2 ^ e_nbits en.
-Proof.
-  exists {| e_scale := -1; e_ref := -1000; e_nbits := 8 |}, (d_of_Z (-7440)).
-  destruct (d_of_Z_exact (-7440)) as [E F]; [vm_compute; reflexivity|].
-  split; [exact F|]. split.
-  - rewrite E. unfold physR. cbn [e_scale e_ref e_nbits]. change (bpow radix10 (- -1)) with (IZR 10).
-    rewrite <- mult_IZR. apply IZR_lt. reflexivity.
-  - vm_compute. reflexivity.
-Qed.
+(* variant fx_neg = true (exact 10^-scale): the same value encodes to 32766 *)
+Theorem encode_exact_physical_witness :
+  cvt_dval_to_i64 pow10_rn true 2067 {| e_scale := -5; e_ref := 0; e_nbits := 15 |} (d_of_Z 3276600000) = 32766.
+Proof. vm_compute. reflexivity. Qed.
+
+(* the former counterexample of "out of range -> missing" (scale -1, reference -1000, 8 bits, -7440 was stored as 2^8;
+   repaired in /repo by 3248512): now missing in both variants *)
+Theorem encode_out_of_range_witness :
+  forall fx_neg, cvt_dval_to_i64 pow10_rn fx_neg 1001 {| e_scale := -1; e_ref := -1000; e_nbits := 8 |} (d_of_Z (-7440)) = 2 ^ 8 - 1.
+Proof. intros [|]; vm_compute; reflexivity. Qed.
